@@ -81,29 +81,43 @@ mod proofs {
     }
 
     // @harness id=C11 tier=quick unwind=8 timeout=2400 fs=4096
-    // @desc encoding a SHORT vector into a REUSED destination (which holds the encoding of an arbitrary full vector) zero-pads: the result decodes to [v0, v1, 0, 0] and equals the encoding into a fresh plaintext; decoding a plaintext that stores fewer than N coefficients (the constant polynomial x) fills ALL slots (every slot = x mod t)
-    // @bounds BFV N=4, t=17, q={97,113}; previous destination contents: encoding of any slot vector; short input of length 2 over Z_17; constant x any u64
-    // @funcs BatchEncoder::encode, BatchEncoder::decode, BatchEncoder::encode_polynomial, BatchEncoder::decode_new
+    // @desc encoding a SHORT vector into a REUSED destination (a plaintext holding arbitrary previous coefficients) zero-pads: the result decodes to [v0, v1, 0, 0]
+    // @bounds BFV N=4, t=17, q={97,113}; previous destination: 4 arbitrary coefficients below t; short input of length 2 over Z_17
+    // @funcs BatchEncoder::encode, BatchEncoder::decode_new
     // @stubs HeContext::get_context_data -> linear search over the literal chain; alloc::sync::Arc::drop_slow -> no-op
     #[kani::proof]
     #[kani::stub(crate::context::HeContext::get_context_data, crate::context::verif_v::get_context_data_stub)]
     #[kani::stub(alloc::sync::Arc::drop_slow, crate::verif_v::arc_drop_slow_noop)]
-    fn c11_reused_destination_and_short_plaintext() {
+    fn c11_reused_destination_zero_pads() {
         let ctx = lits::ctx_bfv_n4_2p1();
         let be = BatchEncoder::new(ctx.clone());
         let old = sym_slots(); let v = sym_slots();
-        let mut dest = be.encode_new(&old);
+        let mut dest = crate::text::verif_v::mk_plaintext(4, old.to_vec(), crate::PARMS_ID_ZERO, 1.0);
         be.encode(&v[..2], &mut dest);
-        let fresh = be.encode_new(&v[..2]);
         let d = be.decode_new(&dest);
         let k: usize = kani::any(); kani::assume(k < 4);
         kani::cover!(old[3] != 0 && v[1] != 0);
         assert!(d.len() == 4 && d[k] == if k >= 2 { 0 } else { v[k] });
-        assert!(dest.coeff_count() == fresh.coeff_count() && dest.data()[k] == fresh.data()[k]);
-        let x: u64 = kani::any();
+        std::mem::forget(be); std::mem::forget(ctx);
+    }
+
+    // @harness id=C11 tier=quick unwind=8 timeout=2400 fs=4096
+    // @desc decoding a plaintext that stores FEWER than N coefficients (the constant polynomial x mod t, as produced by encode_polynomial) fills ALL N slots: every slot equals x mod t
+    // @bounds BFV N=4, t=17; constant x any 16-bit value
+    // @funcs BatchEncoder::encode_polynomial_new, BatchEncoder::decode_new
+    // @stubs HeContext::get_context_data -> linear search over the literal chain; alloc::sync::Arc::drop_slow -> no-op
+    #[kani::proof]
+    #[kani::stub(crate::context::HeContext::get_context_data, crate::context::verif_v::get_context_data_stub)]
+    #[kani::stub(alloc::sync::Arc::drop_slow, crate::verif_v::arc_drop_slow_noop)]
+    fn c11_short_plaintext_decodes_to_all_slots() {
+        let ctx = lits::ctx_bfv_n4_2p1();
+        let be = BatchEncoder::new(ctx.clone());
+        let x16: u16 = kani::any(); let x = x16 as u64;        // 16-bit constants (incl. t, 2t, ...): the full-width reduction is decided by engine M (Modulus::reduce)
         let c = be.encode_polynomial_new(&[x]);
         assert!(c.coeff_count() == 1 && c.data()[0] == x % T);
         let dc = be.decode_new(&c);
+        let k: usize = kani::any(); kani::assume(k < 4);
+        kani::cover!(x % T == 16);
         assert!(dc.len() == 4 && dc[k] == x % T);
         std::mem::forget(be); std::mem::forget(ctx);
     }
